@@ -20,6 +20,43 @@ Definition modelled_index_writers : list string :=
 Definition all_key_writers_modelled : bool :=
   forallb (fun w : string * string => mem (fst w) modelled_key_writers) key_writers.
 
+(** the only places where a [_keys] dict may leave its Entity: the deprecated [Entity.keys] property (stated
+    assumption: callers do not write through it) and [Entity.copy], which hands it to the constructor (which only
+    iterates [keys.items()] and stores through __setitem__) *)
+Definition known_key_escapes : list (string * string) :=
+  [("Entity.keys", "return"); ("Entity.copy", "arg:Entity")].
+Definition all_key_escapes_known : bool :=
+  forallb (fun w : string * string =>
+             existsb (fun k : string * string => String.eqb (fst w) (fst k) && String.eqb (snd w) (snd k)) known_key_escapes)
+          key_escapes.
+(** VMF.entities is mutated, and VMF.spawn assigned, only by modelled functions *)
+Definition modelled_entity_list_writers : list string :=
+  ["VMF.__init__"; "VMF.add_ent"; "VMF.add_ents"; "VMF.remove_ent"].
+Definition all_entity_list_writers_modelled : bool :=
+  forallb (fun w : string * string => mem (fst w) modelled_entity_list_writers) entity_list_writers.
+Definition modelled_spawn_writers : list string := ["VMF.__init__"; "VMF.parse"].
+Definition all_spawn_writers_modelled : bool :=
+  forallb (fun w : string * string => mem (fst w) modelled_spawn_writers) spawn_writers.
+
+(** where the folded value of an index update comes from: the classname for by_class and the targetname for
+    by_target, read through Entity.__getitem__ (case-insensitive) from the very entity that is filed; in
+    Entity.__setitem__ the previous value for the removal and the new value for the addition; in an Entity
+    method the update sits in the branch about that keyvalue and files [self] *)
+Definition key_source_ok (s : string * string * bool * keysrc * string * string) : bool :=
+  let '(fn, ix, add, src, ent, br) := s in
+  let want := if String.eqb ix "by_class" then "classname" else "targetname" in
+  (match src with
+   | SGet k e => String.eqb k want && String.eqb e ent
+   | SOrig => String.eqb fn "Entity.__setitem__" && negb add
+   | SNew => String.eqb fn "Entity.__setitem__" && add
+   | SLitKey => true
+   | SOther => false
+   end)
+  && (if String.prefix "Entity." fn then String.eqb br want && String.eqb ent "self" else true).
+Definition key_sources_ok_in (f : string) : bool :=
+  forallb (fun s : string * string * bool * keysrc * string * string =>
+             let '(fn, _, _, _, _, _) := s in negb (String.eqb fn f) || key_source_ok s) index_key_sources.
+
 Definition site_fn (s : string * string * bool * keyclass * bool) : string := fst (fst (fst (fst s))).
 Definition site_ix (s : string * string * bool * keyclass * bool) : string := snd (fst (fst (fst s))).
 Definition site_add (s : string * string * bool * keyclass * bool) : bool := snd (fst (fst s)).
